@@ -175,3 +175,6 @@ REG["C13"]["technique"] += (" + FsIO!RequestRefused judged in FsTrace.tla: runs 
 for _p in ("C08", "C10"):
     REG[_p]["technique"] += (" + trace validation at scale: covering grids recorded from the real tool on random nested meshes (up to 4 levels, 64 x 64 pixels), "
                              "every pixel decoded to the (level, cell) it names, judged line by line by spec/trace/CoverTrace.tla with Mesh!CoverSpec / CoverLevel")
+for _p in ("C10", "C12"):
+    REG[_p]["technique"] += (" + StartMethod.tla (what a worker needs travels in its task: holds under fork and spawn) bound by real-pool runs with workers "
+                             "started by 'spawn'")
